@@ -434,8 +434,8 @@ theorem idxEntry_wf (b : LBlock) (hne : b.2.2 ≠ []) (hwf : ∀ e ∈ b.2.2, EW
   cases ents with
   | nil => exact absurd rfl hne
   | cons e ents =>
-    obtain ⟨h1, h2, _, _⟩ := hwf e (by simp)
-    refine ⟨h1, h2, ?_, by simp [idxEntry]⟩
+    obtain ⟨h2, _, _⟩ := hwf e (by simp)
+    refine ⟨h2, ?_, by simp [idxEntry]⟩
     intro v hv
     simp only [idxEntry, Option.some.injEq] at hv
     subst hv
